@@ -29,7 +29,18 @@ PointLists == Rows \cup {<<>>, << <<1, 1>> >>, << <<1, 1>>, <<3, 1>>, <<5, 3>> >
 BigPolys == { << <<0, 0>>, <<44, 44>>, <<0, 44>> >>, << <<0, 0>>, <<60, 40>>, <<10, 58>> >>,
               << <<10, 58>>, <<60, 40>>, <<0, 0>> >>, << <<2, 0>>, <<62, 36>>, <<32, 62>>, <<0, 30>> >>,
               << <<0, 0>>, <<46, 2>>, <<44, 48>>, <<2, 46>> >> }
+\* polygons far from the origin: every vertex (and every query point) is displaced by
+\* (sx, sy) * (2^e + f/8) user units, all exactly representable in a double.  The shoelace sum, the
+\* edge lengths and the winding number are translation invariant (law ShiftLaws below), so the
+\* expected answers are those of the undisplaced vertex list; an implementation that multiplies raw
+\* coordinates (products beyond 2^53) instead of differences loses them to rounding.
+FarPolys == {Pal[1], Pal[2], Pal[3], Pal[6],
+             << <<0, 0>>, <<6, 0>>, <<6, 2>>, <<2, 2>>, <<2, 6>>, <<0, 6>> >>,       \* L, area 20 (doubled: 80)
+             << <<0, 0>>, <<2, 0>>, <<2, 2>>, <<0, 2>> >>,                            \* unit square
+             << <<1, 0>>, <<7, 3>>, <<3, 8>> >>}
 Init == \/ case = [k |-> "poly", pts |-> <<>>, lo |-> -2, hi |-> 2 * G]
+        \/ \E P \in FarPolys, e \in {27, 40}, f \in {5, 7}, sg \in {<<1, -1>>, <<-1, 1>>, <<1, 1>>} :
+              case = [k |-> "far", pts |-> P, lo |-> -2, hi |-> 8, e |-> e, f |-> f, sx |-> sg[1], sy |-> sg[2]]
         \/ \E P \in BigPolys : case = [k |-> "poly", pts |-> P, lo |-> -2, hi |-> 64]
         \/ \E gi \in GroupsIdx, pl \in PointLists :
               case = [k |-> "group", pts |-> <<>>, polys |-> [i \in DOMAIN gi |-> Pal[gi[i]]], list |-> pl]
@@ -38,7 +49,13 @@ Next == /\ case.k = "poly" /\ Len(poly) < MaxLen /\ case.hi = 2 * G
 
 Rotl(s) == IF Len(s) = 0 THEN s ELSE Tail(s) \o <<Head(s)>>
 Rev(s) == [i \in DOMAIN s |-> s[Len(s) + 1 - i]]
-Laws == /\ \A q \in Queries : Inside(poly, q) = Inside(Rotl(poly), q)
+Shift(s, t) == [i \in DOMAIN s |-> <<s[i][1] + t[1], s[i][2] + t[2]>>]
+ShiftLaws == \A t \in {<<6, -10>>, <<-14, 2>>} :
+                /\ SignedArea2(Shift(poly, t)) = SignedArea2(poly)
+                /\ Area2(Shift(poly, t)) = Area2(poly)
+                /\ \A q \in Queries : Inside(Shift(poly, t), <<q[1] + t[1], q[2] + t[2]>>) = Inside(poly, q)
+Laws == /\ ShiftLaws
+        /\ \A q \in Queries : Inside(poly, q) = Inside(Rotl(poly), q)
         /\ \A q \in Queries : Inside(poly, q) = Inside(Rev(poly), q)
         /\ SignedArea2(Rev(poly)) = -SignedArea2(poly)
         /\ SignedArea2(Rotl(poly)) = SignedArea2(poly)
